@@ -283,6 +283,19 @@ func buildCases(thorough bool) []tcase {
 				if sp.kind != "null" {
 					out = append(out, tcase{query: "query Q($v: " + vt + " = " + value + ") " + field(render("$v")), form: "variable default", pos: p.name, sp: sp, target: target})
 				}
+				// the executed operation is the SECOND one of the document; the first one
+				// declares the same variable name with another default
+				if sp.kind != "null" {
+					other := `"first"`
+					if sp.kind != "string" {
+						other = value
+					}
+					first := "query P($v: " + vt + " = " + other + ") " + field(render("$v")) + " "
+					if sp.kind != "string" {
+						first = "query P { __typename } "
+					}
+					out = append(out, tcase{query: first + "query Q($v: " + vt + " = " + value + ") " + field(render("$v")), form: "variable default, second operation of the document", pos: p.name, sp: sp, target: target})
+				}
 				if sp.lit == `"plain"` || sp.lit == "7" {
 					// omitted optional variable and explicit null variable
 					out = append(out, tcase{query: "query Q($v: " + vt + ") " + field(render("$v")), form: "omitted variable", pos: p.name, sp: sp, target: target})
